@@ -154,13 +154,15 @@ def gen_case(rng, cid, prof):
     nact = rng.choice(prof.get("nactions", [0, 2, 3, 4, 6]))
     act_keys = {}
     acts = list(ACTIONS[:11])
+    if prof.get("no_learning"):
+        acts.remove("cc_learning")
     wanted = prof.get("want_actions", [])
     for i in range(nact):
         code = rng.choice(ACT_CODES + ([rng.choice(NOTE_CODES)] if rng.random() < 0.1 else []))
         a = wanted[i] if i < len(wanted) else rng.choice(acts + (["mapping", "channel", "exit"] if rng.random() < 0.05 else []))
         act_keys[code] = a
     # prefer complete pairs
-    if nact >= 2 and rng.random() < 0.6:
+    if nact >= 2 and rng.random() < 0.6 and not prof.get("no_pairs"):
         p = rng.choice([("octave_up", "octave_down"), ("semitone_up", "semitone_down"),
                         ("channel_up", "channel_down"), ("mapping_up", "mapping_down")])
         ks = list(act_keys.keys())
@@ -186,6 +188,19 @@ def gen_history(rng, c, prof):
     n = rng.randint(1, prof.get("max_events", 60))
     down = set()
     ev = []
+    if axes and rng.random() < prof.get("sweep_p", 0.0):
+        # sweep: every raw value of one axis (8-bit / hat / asymmetric), or edges and samples of a 16-bit one
+        ax = rng.choice(axes)
+        mn, mx = ax["min"], ax["max"]
+        vals = list(range(mn, mx + 1)) if mx - mn <= 400 else sorted(set(axis_positions(rng, ax) + [rng.randint(mn, mx) for _ in range(200)]))
+        if rng.random() < 0.3:
+            rng.shuffle(vals)
+        elif rng.random() < 0.5:
+            vals.reverse()
+        c.events = ["abs %s %s %d %d" % (ax["sub"], ax["node"], ax["code"], v) for v in vals]
+        c.disconnect = False
+        c.meta["sweep"] = True
+        return c
     codes_n = sorted(note_keys.keys())
     codes_a = sorted(act_keys.keys())
     for _ in range(n):
